@@ -15,9 +15,12 @@ Coef(n, sec) ==
 Expect(n, sec, nf, pto, ren, fact, intr) ==
   LET t == Table(Inst(n), sec, nf, pto, Coef(n, sec), ren, fact, intr) IN
   SetToSeq({<<key[1], key[2], key[3], t[key][1], t[key][2]>> : key \in BuildOrders(pto)})
-Obls == {[n |-> n, sec |-> sec, nf |-> nf, pto |-> pto, ren |-> ren, fact |-> fact, intrinsic |-> intr,
+\* evol: the order of the evolution (card key PTO); the scale-variation tensor is a function of the order of the coefficient
+\* functions (PTODIS = pto) alone, so the expectation does not mention it - runs with PTO # PTODIS must give the same tensor
+Obls == {[n |-> n, sec |-> sec, nf |-> nf, pto |-> pto, evol |-> evol, ren |-> ren, fact |-> fact, intrinsic |-> intr,
           labels |-> Inst(n), c |-> [o \in 1..4 |-> Coef(n, sec)[o - 1]],
           expect |-> Expect(n, sec, nf, pto, ren, fact, intr)] :
-           n \in 1..NI, sec \in Sectors, nf \in NFS, pto \in PTOS, ren \in BOOLEAN, fact \in BOOLEAN, intr \in BOOLEAN}
-ASSUME ndJsonSerialize(IOEnv.OUT, SetToSeq({o \in Obls : o.intrinsic => o.sec = "nsp"}))
+           n \in 1..NI, sec \in Sectors, nf \in NFS, pto \in PTOS, evol \in 0..3, ren \in BOOLEAN, fact \in BOOLEAN, intr \in BOOLEAN}
+Wanted(o) == (o.intrinsic => o.sec = "nsp") /\ (o.evol = o.pto \/ (o.n = 1 /\ o.evol = o.pto - 1 /\ (o.ren \/ o.fact)))
+ASSUME ndJsonSerialize(IOEnv.OUT, SetToSeq({o \in Obls : Wanted(o)}))
 =============================================================================
